@@ -238,6 +238,20 @@ pub fn eval_pick(ctx: &mut Ctx, spec: &str, msg: &[u8]) {
     let Some(l) = base_list(spec) else { return ctx.harness_error("bad list") };
     let order: Vec<SymbolSize> = l.iter().collect();
     let res = guard(|| datamatrix::DataMatrixBuilder::new().with_symbol_list(l).with_macros(false).encode(msg).map(|dm| (dm.size, dm.data_codewords().to_vec())));
+    // a pure digit message needs exactly ceil(n/2) codewords (digit pairs cannot be beaten): then the expectation
+    // does not depend on the encoder's own stream at all
+    let digits_need = if !msg.is_empty() && msg.iter().all(|b| b.is_ascii_digit()) { Some((msg.len() + 1) / 2) } else { None };
+    if let Some(need) = digits_need {
+        let first = order.iter().map(|s| cat::row_of(*s).data).filter(|c| *c >= need).min();
+        match &res {
+            Err(p) => return ctx.violation("panic", &case(), p.clone()),
+            Ok(Err(e)) if first.is_some() => return ctx.violation("not_first_large_enough", &case(), format!("{} digits need {} codewords and capacity {:?} is listed, but encoding was refused: {:?}", msg.len(), need, first, e)),
+            Ok(Ok((size, _))) if Some(cat::row_of(*size).data) != first => {
+                return ctx.violation("not_first_large_enough", &case(), format!("{} digits need {} codewords; picked capacity {}, first large enough {:?}", msg.len(), need, cat::row_of(*size).data, first))
+            }
+            _ => ctx.count("pick.digits_exact_expectation_ok"),
+        }
+    }
     match res {
         Err(_) | Ok(Err(_)) => ctx.count("pick.encode_failed(C11/C10)"),
         Ok(Ok((size, dcw))) => {
@@ -489,6 +503,25 @@ pub fn run(ctx: &mut Ctx) {
         let a: Vec<&'static Row> = (0..na).map(|_| ctx.rng.pick(&CAT)).collect();
         let b: Vec<&'static Row> = (0..nb).map(|_| ctx.rng.pick(&CAT)).collect();
         eval_construction(ctx, &a, &b);
+    }
+    // picks at exact capacity: 2 x capacity digits need exactly `capacity` codewords (digit pairs cannot be beaten), so
+    // the symbol picked from any list containing that size must have exactly that capacity, and it must not be refused
+    for (ri, r) in CAT.iter().enumerate() {
+        if !ctx.mine(ri) {
+            continue;
+        }
+        for spec in [r.name.to_string(), "all".to_string(), "default".to_string(), format!("Square10,{}", r.name)] {
+            if spec == "default" && !r.iso16022 {
+                continue;
+            }
+            for short in [0usize, 1, 2, 5] {
+                let n = 2 * r.data - short;
+                let need = (n + 1) / 2;
+                let msg: Vec<u8> = (0..n).map(|i| b'0' + ((i * 7 + ri) % 10) as u8).collect();
+                let _ = need;
+                eval_pick(ctx, &spec, &msg);
+            }
+        }
     }
     // picks
     for _ in 0..ctx.budget(60_000, 2_000_000) {
